@@ -155,6 +155,7 @@ func fieldWrites1(fn *ssa.Function, owner, name string) []ssa.Instruction {
 func runC14(c *Ctx) {
 	p := c.P
 	runLockRules(c, "C14", []string{"pkg/txpool"}, true)
+	checkEvictionVictimFromTheList(c)
 
 	add := c.Anchor("pkg/txpool.(*TransactionPool).Add")
 	remove := c.Anchor("pkg/txpool.(*TransactionPool).remove")
@@ -832,3 +833,67 @@ func edgeDominatesAny(e Edge, fn *ssa.Function, sub string) bool {
 }
 
 var c14UnsignedTable = []unsignedRow{}
+
+// checkEvictionVictimFromTheList — R13. When a sender's list is full, Add makes room by removing
+// one transaction and then inserts the incoming one regardless of what the removal did (remove
+// answers nil for a nonce that is not listed). The per-sender bound therefore rests on the victim
+// being a transaction that *is* in the list at that moment. Structural condition: the nonce
+// handed to remove on the over-limit branch is computed in this critical section from the list
+// itself — the result of a function of the same object that reads the `nonces` heap or the
+// `transactions` map (or an expression over those fields) — not a remembered scalar (a cached
+// "highest nonce" goes stale when its transaction leaves by another route: the removal then
+// removes nothing and the list grows past the limit).
+func checkEvictionVictimFromTheList(c *Ctx) {
+	p := c.P
+	rule := "C14.R13 eviction-victim-from-the-list"
+	add := c.Anchor("pkg/txpool.(*addressTransactions).Add")
+	if add == nil {
+		return
+	}
+	readsList := func(g *ssa.Function) bool {
+		if g == nil || !IsOwn(g) || len(g.Blocks) == 0 {
+			return false
+		}
+		for _, f := range funcAndHelpers(g) {
+			for _, b := range f.Blocks {
+				for _, in := range b.Instrs {
+					if fa, ok := in.(*ssa.FieldAddr); ok {
+						if o, st := ownerOfFieldBase(fa.X.Type()); st != nil && o == "txpool.addressTransactions" {
+							if n := fieldNameOf(st.Field(fa.Field)); n == "nonces" || n == "transactions" {
+								return true
+							}
+						}
+					}
+				}
+			}
+		}
+		return false
+	}
+	n := 0
+	for _, s := range CallsIn(add, "(*txpool.addressTransactions).remove") {
+		n++
+		v := T(ArgK(s.Call, 1))
+		fromList, scalar := false, ""
+		v.Walk(func(t *Term) bool {
+			switch {
+			case t.Op == "field" && t.Owner == "txpool.addressTransactions" && (t.Sym == "nonces" || t.Sym == "transactions"):
+				fromList = true
+			case t.Op == "field" && t.Owner == "txpool.addressTransactions":
+				scalar = t.Sym
+			case t.Op == "call" && t.Call != nil && readsList(t.Call.Common().StaticCallee()):
+				fromList = true
+				return false
+			}
+			return true
+		})
+		why := ""
+		if !fromList {
+			why = "the victim " + v.String() + " is not computed from the list"
+			if scalar != "" {
+				why += " (it is read from the field " + scalar + ", which is only as current as its last update)"
+			}
+		}
+		c.Require(rule, FuncKey(add)+": remove("+normIter(v.String())+")", p.InstrPos(s.Call), "the transaction removed to make room is chosen from the sender's list as it is now", fromList, why)
+	}
+	c.MinInstances(rule, n, 1)
+}
